@@ -60,9 +60,10 @@ Definition w_lam := ELambda [[113%N]] (EName [113%N]).            (* lambda q: q
 Definition w_tup := ETuple (ECons na ENil).                       (* (a,)              -> (a) *)
 Definition w_attr := EAttr (EBin BAdd na nb) [99%N].              (* (a + b).c         -> a + b.c *)
 Definition w_negpow := EBin BPow (ENum KInt true [49%N]) na.      (* (-1) ** a         -> -1 ** a *)
+Definition w_seqmul := EBin BMul (EList (ECons na ENil)) nb.      (* [a] * b           -> [a, b] *)
 
 Lemma old_refuted : bad w_sub /\ bad w_pow /\ bad w_divmul /\ bad w_cond /\ bad w_casc /\ bad w_cmpcmp /\
-                    bad w_lam /\ bad w_tup /\ bad w_attr /\ bad w_negpow.
+                    bad w_lam /\ bad w_tup /\ bad w_attr /\ bad w_negpow /\ bad w_seqmul.
 Proof.
   repeat split; try (vm_compute; reflexivity); eexists; split; vm_compute; reflexivity.
 Qed.
@@ -74,7 +75,7 @@ Proof. vm_compute. reflexivity. Qed.
 (* the repaired printer on the same witnesses *)
 Lemma new_on_witnesses :
   forallb (fun e => match reparse 1000 (print true e) with RExpr e' => expr_eqb e e' | _ => false end)
-    [w_sub; w_pow; w_divmul; w_cond; w_casc; w_cmpcmp; w_lam; w_tup; w_attr; w_negpow;
+    [w_sub; w_pow; w_divmul; w_cond; w_casc; w_cmpcmp; w_lam; w_tup; w_attr; w_negpow; w_seqmul;
      ECond na (ECond nb nc na) nb] = true.
 Proof. vm_compute. reflexivity. Qed.
 
